@@ -61,9 +61,140 @@ def oracle(tier):
     return fails, {'oracle_inputs': n, 'oracle_distinct_nontrivial': len(nontriv)}
 
 
+SITES = ['table_note', 'column_note', 'index_note', 'index_name', 'string_default', 'table_property', 'column_property',
+         'enum_item_note', 'group_note', 'project_note', 'project_field', 'sticky_note']
+NOTE_SITES = {'table_note', 'column_note', 'index_note', 'enum_item_note', 'group_note', 'project_note', 'sticky_note'}
+SINGLE_LINE_SITES = {'column_note', 'index_note', 'enum_item_note', 'index_name', 'string_default', 'table_property', 'column_property', 'project_field'}
+NO_QUOTE_SITES = {'index_name', 'project_field'}
+
+
+def site_build(site, t):
+    from pydbml.classes import Column, Table, Index, Note, Enum, EnumItem, TableGroup, Project, StickyNote
+    from pydbml.database import Database
+    db = Database(allow_properties=True)
+    col = Column('id', 'int')
+    tb = Table('t', columns=[col])
+    get = None
+    if site == 'table_note':
+        tb.note = Note(t)
+        get = lambda d: d.tables[0].note.text
+    elif site == 'column_note':
+        col.note = Note(t)
+        get = lambda d: d.tables[0].columns[0].note.text
+    elif site == 'index_note':
+        tb.add_index(Index([col], note=t))
+        get = lambda d: d.tables[0].indexes[0].note.text
+    elif site == 'index_name':
+        tb.add_index(Index([col], name=t))
+        get = lambda d: d.tables[0].indexes[0].name
+    elif site == 'string_default':
+        col.default = t
+        get = lambda d: d.tables[0].columns[0].default
+    elif site == 'table_property':
+        tb.properties = {'k': t}
+        get = lambda d: d.tables[0].properties.get('k')
+    elif site == 'column_property':
+        col.properties = {'k': t}
+        get = lambda d: d.tables[0].columns[0].properties.get('k')
+    db.add(tb)
+    if site == 'enum_item_note':
+        db.add(Enum('e', [EnumItem('x', note=t)]))
+        get = lambda d: d.enums[0].items[0].note.text
+    elif site == 'group_note':
+        db.add(TableGroup('g', [tb], note=Note(t)))
+        get = lambda d: d.table_groups[0].note.text
+    elif site == 'project_note':
+        db.add(Project('p', note=t))
+        get = lambda d: d.project.note.text
+    elif site == 'project_field':
+        db.add(Project('p', items={'k': t}))
+        get = lambda d: d.project.items.get('k')
+    elif site == 'sticky_note':
+        db.add(StickyNote('s', t))
+        get = lambda d: d.sticky_notes[0].text
+    return db, get
+
+
+def text_ok(site, t):
+    """the domain of the site round-trip clause; every exclusion is a listed finding"""
+    if not t or '\\' in t or "'''" in t:                      # D10 backslash, D33 three quotes
+        return False
+    if not t.strip():                                            # D35 whitespace-only text
+        return False
+    if site in SINGLE_LINE_SITES and '\n' in t:                  # D13, D30, D32, D34
+        return False
+    if site in NO_QUOTE_SITES and "'" in t:                      # D9
+        return False
+    if site == 'string_default' and t.lower() in ('true', 'false', 'null'):   # D12
+        return False
+    if any(l and not l.strip() for l in t.split('\n')):          # D14 interior whitespace-only lines
+        return False
+    return True
+
+
+def site_roundtrip(job):
+    site, t = job
+    from pydbml import PyDBML
+    db, get = site_build(site, t)
+    try:
+        text = db.dbml
+        d2 = PyDBML(text, allow_properties=True)
+        r = get(d2)
+    except Exception as e:   # noqa
+        return 'raise ' + type(e).__name__
+    return None if r == t else 'stored ' + repr(r)
+
+
+def site_oracle(tier, v):
+    import prop_parse
+    from pydbml.parser.blueprints import NoteBlueprint
+    from common import load_known_findings
+    jobs = []
+    alpha = ['a', ' ', '\n', "'", '"', '`', '{', '#', '/', ']', 'é']
+    for t in all_strings(alpha, 3 if tier == 'quick' else 4):
+        for site in SITES:
+            if not text_ok(site, t):
+                continue
+            if site in NOTE_SITES:
+                try:
+                    if NoteBlueprint(t)._preformat_text() != t:
+                        continue          # notes are stored in normal form
+                except Exception:   # noqa
+                    continue
+            jobs.append((site, t))
+    r = rng('c13-sites')
+    pool = ["it's", 'say "hi"', 'a `tick`', '{brace}', '[bracket]', '# hash', '// slashes', '/* block */', 'é 中 💸', 'two words',
+            'line one\nline two', 'indented\n  more', "ends with quote'", 'colon: value', 'comma, separated', 'a = b', 'x;y', '<>', 'ref: > t.id']
+    for _ in range(300 if tier == 'quick' else 5000):
+        t = ' '.join(r.choice(pool) for _ in range(r.randint(1, 3)))
+        site = r.choice(SITES)
+        if text_ok(site, t):
+            jobs.append((site, t))
+    outs = prop_parse.pool_map(site_roundtrip, jobs)
+    fails = []
+    for (site, t), o in zip(jobs, outs):
+        if o is not None:
+            fails.append({'cause': 'oracle', 'clause': 'text at site %s does not survive render + parse: %s' % (site, o),
+                          'input': {'kind': 'site-text', 'site': site, 'text_hex': hexs(t), 'text': t}})
+    for f in load_known_findings()['findings']:
+        if f['property'] == 'C13' and f['witness'].get('kind') == 'site-text':
+            w = f['witness']
+            if site_roundtrip((w['site'], w['text'])) is not None:
+                v.known_finding(f['id'], f['what'])
+        elif f['property'] == 'C13' and f['witness'].get('kind') == 'note-text':
+            t = f['witness']['text']
+            p1 = NoteBlueprint(t)._preformat_text()
+            if NoteBlueprint(p1)._preformat_text() != p1:
+                v.known_finding(f['id'], f['what'])
+    return fails, len(jobs)
+
+
 def run(v, tier, st, pr):
     r = stream_text.run(tier)
     fails, stats = oracle(tier)
+    sfails, nsite = site_oracle(tier, v)
+    fails += sfails
+    stats['site_round_trips'] = nsite
     v.coverage.update(stats)
     total = verdicts.conclude(v, pr, st, {'text': r}, fails)
     v.coverage['evaluations'] = total + stats['oracle_inputs']
